@@ -21,6 +21,8 @@ META = {
               '(dual[0], dual[1], dual[2], in stored order) to try_extend, which — for the first rotation (i,j,k) that applies — either replaces the cycle edge t_k -> t_j by t_k -> t_i -> t_j '
               '(t_i not on the cycle, len+1) or contracts t_k -> t_j -> t_i into t_k -> t_i, detaching t_j and keeping `start` on the cycle (len-1), and otherwise changes nothing; the clip '
               'routine passes exactly the removed vertices, walks len+1 items of the cycle from `start`, and the walk follows the successor pointers',
+        'R8': 'candidates reach the builder in order of true distance (C17.R1-R3, R5): min-first heap, leaf key == |q + s - g|^2 (squared, like the envelope bound it is compared with), '
+              'envelope bound == squared distance to the clamped point, plain search == squared Euclid — otherwise the termination test (R3) ends the loop before a nearer generator was clipped',
         'R6': 'built-in integrals: volume = sum signed_volume_tet(v0,v1,v2,apex); centroid = sum vol*(v0+v1+v2+apex) * (1/4)/sum vol with the cell generator as apex',
     },
     'explanation': 'Decides necessary conditions of the incremental construction, each for all inputs: the loop clips with every '
@@ -39,7 +41,7 @@ def run(ctx):
     for cfg in ctx.configs_used:
         F = ctx.facts(cfg)
         sfx = '' if cfg == 'default' else '@' + cfg
-        for fn in (r1, r2, r3, r4, r5, r6, r7):
+        for fn in (r1, r2, r3, r4, r5, r6, r7, r8):
             rule = 'C01.' + fn.__name__.upper()
             ctx.guarded(rule, 'evaluate' + sfx, lambda: fn(ctx, F, rule, sfx))
 
@@ -290,7 +292,16 @@ def r5(ctx, F, rule, sfx):
     # the third index is the index at which the new plane was pushed (= len before the push)
     push = [x for x in ipc.events if x.callee and x.callee.endswith('Vec::<T, A>::push') and x.body is cb and repr(x.fargs[1]) == 'newplane' and 'clipping_planes' in repr(x.fargs[0])]
     ok_idx = len(push) == 1 and newidx.startswith('len(') and 'clipping_planes' in newidx
+    c16.initial_vertices(ctx, F, rule, sfx)
     ctx.check(rule, 'clip-site-new-plane-index' + sfx, ok_idx, 'third dual index = %s; new plane pushed %d time(s)' % (newidx[:80], len(push)), 'len(planes) before pushing the new plane', where(cb, e.line), key_extra='new-index')
+
+
+def r8(ctx, F, rule, sfx):
+    from . import c17
+    c17.r1(ctx, F, rule, sfx)
+    c17.r2(ctx, F, rule, sfx)
+    c17.r3(ctx, F, rule, sfx)
+    c17.r5(ctx, F, rule, sfx)
 
 
 def r6(ctx, F, rule, sfx):
@@ -437,7 +448,13 @@ def cycle_roles(F):
     return {'ptrs': vecs[0], 'start': start, 'len': ln, 'it_cycle': irefs[0], 'it_next': ius[0]}
 
 
-def r7(ctx, F, rule, sfx):
+T3 = 'abc'
+
+
+def try_extend_outcomes(ctx, F):
+    """Abstractly evaluate SimpleCycle::try_extend(a, b, c) on a symbolic cycle (successor table P, start S, length N) and
+    tabulate its effect under every assignment of the conditions it tests (Pxy: `ptrs[x] == y`, Sx: `start == x`).
+    -> (body, atoms used, all atom names, [(env, stores, base, len delta (RF), start, result)])"""
     import itertools
     from .. import dtab
     te = F.body_by_suffix('SimpleCycle::try_extend')
@@ -449,11 +466,10 @@ def r7(ctx, F, rule, sfx):
     r = ip.ref_to(cyc, mut=True)
     v, rets = ip.call_body(te, [r, RF.sym('a'), RF.sym('b'), RF.sym('c')])
     ctx.evaluations += ip.evaluations
-    w = where(te)
     final = I.read_lv(r.lv)
     if 'phi' in repr(final) or '::next(' in repr(final):
         raise AnalysisIncomplete('the rotation loop of try_extend did not unroll')
-    T = 'abc'
+    T = T3
     names = ['P%s%s' % (x, y) for x in T for y in T] + ['S' + x for x in T]
 
     def classify(leaf):
@@ -473,35 +489,48 @@ def r7(ctx, F, rule, sfx):
                 raise AnalysisIncomplete('try_extend depends on a condition outside the cycle model: %r' % (l,))
             used.add(c[0])
     atoms = [n for n in names if n in used]
-    bad = []
-    rows = 0
+    out = []
     for bits in itertools.product((False, True), repeat=len(atoms)):
         env = dict(zip(atoms, bits))
         env.update({n: False for n in names if n not in env})
-        rows += 1
 
         def val(leaf):
             n, pol = classify(leaf)
             return env[n] == pol
-        # specification
-        contained = {x: not env['P%s%s' % (x, x)] for x in T}
-        exp_st, exp_len, exp_start, exp_res = {}, 0, None, 'Err'
-        for i, j, k in ((0, 1, 2), (1, 2, 0), (2, 0, 1)):
-            ti, tj, tk = T[i], T[j], T[k]
-            if (not contained[ti]) and contained[tj] and contained[tk] and env['P%s%s' % (tk, tj)]:
-                exp_st, exp_len, exp_res = {tk: ti, ti: tj}, 1, 'Ok'
-                break
-            if contained[ti] and contained[tj] and contained[tk] and env['P%s%s' % (tk, tj)] and env['P%s%s' % (tj, ti)]:
-                exp_st, exp_len, exp_res = {tk: ti, tj: tj}, -1, 'Ok'
-                if env['S' + tj]:
-                    exp_start = ti
-                break
         got_p = dtab.evaluate(I.get_field(final, RO['ptrs']), val)
         gm, gbase = _store_map(got_p)
         got_len = as_rf(dtab.evaluate(as_rf(I.get_field(final, RO['len'])), val)) - RF.sym('N')
         got_start = repr(dtab.evaluate(as_rf(I.get_field(final, RO['start'])), val))
         got_res = dtab.evaluate(v, val)
         gres = getattr(got_res, 'variant', None) or repr(got_res)
+        out.append((env, gm, gbase, got_len, got_start, gres))
+    return te, atoms, names, out
+
+
+def try_extend_spec(env):
+    """Meaning of one attachment step: (stores, len delta, new start or None, result)."""
+    T = T3
+    contained = {x: not env['P%s%s' % (x, x)] for x in T}
+    for i, j, k in ((0, 1, 2), (1, 2, 0), (2, 0, 1)):
+        ti, tj, tk = T[i], T[j], T[k]
+        if (not contained[ti]) and contained[tj] and contained[tk] and env['P%s%s' % (tk, tj)]:
+            return {tk: ti, ti: tj}, 1, None, 'Ok'
+        if contained[ti] and contained[tj] and contained[tk] and env['P%s%s' % (tk, tj)] and env['P%s%s' % (tj, ti)]:
+            return {tk: ti, tj: tj}, -1, (ti if env['S' + tj] else None), 'Ok'
+    return {}, 0, None, 'Err'
+
+
+def r7(ctx, F, rule, sfx):
+    from .. import dtab
+    te, atoms, names, outcomes = try_extend_outcomes(ctx, F)
+    RO = cycle_roles(F)
+    cyc = I.St('simple_cycle::SimpleCycle', 'SimpleCycle', {RO['ptrs']: I.Sym(nf.sym_atom('P'), 'std::vec::Vec<usize>'), RO['start']: RF.sym('S'), RO['len']: RF.sym('N')})
+    w = where(te)
+    bad = []
+    rows = 0
+    for env, gm, gbase, got_len, got_start, gres in outcomes:
+        rows += 1
+        exp_st, exp_len, exp_start, exp_res = try_extend_spec(env)
         ok = gm == exp_st and gbase == 'P' and got_len.is_const() and got_len.const_value() == exp_len and got_start == (exp_start or 'S') and gres == exp_res
         if not ok:
             bad.append((dtab.fmt_env({k_: v_ for k_, v_ in env.items() if k_ in atoms and v_}), gm, got_len, got_start, gres, exp_st, exp_len, exp_start, exp_res))
